@@ -441,6 +441,53 @@ fn check_sum_list(vals: &[i64]) -> CaseResult {
     Ok(Obs::new(vals.len() >= 2 && (near_boundary(total) || !exact_prefix_ok)).label_if(!exact_prefix_ok, "overflowing"))
 }
 
+/// Long sums: the exact total can exceed the MACHINE type (u64 needs > 8784 terms of MAX_MONEY, i64 > 4392),
+/// which a short list never does. `head` values are repeated `reps` times, then `tail` follows.
+fn check_long_sum(head: &[i64], reps: u16, tail: &[i64]) -> CaseResult {
+    let mut vals: Vec<i64> = Vec::with_capacity(head.len() * reps as usize + tail.len());
+    for _ in 0..reps {
+        vals.extend_from_slice(head);
+    }
+    vals.extend_from_slice(tail);
+    let total: i128 = vals.iter().map(|v| *v as i128).sum();
+    let mut acc: i128 = 0;
+    let mut prefix_ok = true;
+    for v in &vals {
+        acc += *v as i128;
+        if !in_bal(acc) {
+            prefix_ok = false;
+            break;
+        }
+    }
+    let bs: Vec<ZatBalance> = vals.iter().map(|v| bal(*v as i128)).collect();
+    let r1 = catch(|| bs.iter().copied().sum::<Option<ZatBalance>>()).map_err(|p| Fail::new("bal-sum-panic", format!("Sum<ZatBalance> over {} terms panicked: {p}", vals.len())))?;
+    let r2 = catch(|| bs.iter().sum::<Option<ZatBalance>>()).map_err(|p| Fail::new("bal-sum-ref-panic", format!("Sum<&ZatBalance> over {} terms panicked: {p}", vals.len())))?;
+    let r3 = catch(|| ZatBalance::sum(bs.iter().copied())).map_err(|p| Fail::new("bal-assoc-sum-panic", format!("ZatBalance::sum over {} terms panicked: {p}", vals.len())))?;
+    for (name, r) in [("Sum<ZatBalance>", r1), ("Sum<&ZatBalance>", r2), ("ZatBalance::sum", r3)] {
+        match r {
+            Some(v) => vensure!(prefix_ok && bal_i(v) == total, "bal-long-sum", "{name} over {} terms returned {v:?}; exact total {total}, every prefix in range: {prefix_ok}", vals.len()),
+            None => vensure!(!prefix_ok, "bal-long-sum", "{name} over {} terms returned None although every prefix sum is in range (total {total})", vals.len()),
+        }
+    }
+    if vals.iter().all(|v| *v >= 0) {
+        let zs: Vec<Zatoshis> = vals.iter().map(|v| zat(*v as i128)).collect();
+        let r1 = catch(|| zs.iter().copied().sum::<Option<Zatoshis>>()).map_err(|p| Fail::new("zat-sum-panic", format!("Sum<Zatoshis> over {} terms panicked: {p}", vals.len())))?;
+        let r2 = catch(|| zs.iter().sum::<Option<Zatoshis>>()).map_err(|p| Fail::new("zat-sum-ref-panic", format!("Sum<&Zatoshis> over {} terms panicked: {p}", vals.len())))?;
+        for (name, r) in [("Sum<Zatoshis>", r1), ("Sum<&Zatoshis>", r2)] {
+            match r {
+                Some(v) => vensure!(in_zat(total) && zat_i(v) == total, "zat-long-sum", "{name} over {} terms returned {v:?} but the exact total is {total}", vals.len()),
+                None => vensure!(!in_zat(total), "zat-long-sum", "{name} over {} terms returned None but the exact total {total} is in range", vals.len()),
+            }
+        }
+    }
+    let beyond_machine = total.unsigned_abs() > i64::MAX as u128;
+    Ok(Obs::new(beyond_machine || near_boundary(total))
+        .key(vcore::hash64(format!("{head:?}{reps}{tail:?}").as_bytes()))
+        .label_if(total > u64::MAX as i128, "total>u64::MAX")
+        .label_if(beyond_machine, "total-beyond-i64")
+        .label_if(vals.iter().any(|v| *v < 0), "mixed-signs"))
+}
+
 fn arb_in_range() -> impl Strategy<Value = i64> + Clone {
     let lat: Vec<i64> = lattice().into_iter().filter(|x| in_bal(*x)).map(|x| x as i64).collect();
     prop_oneof![
@@ -524,5 +571,14 @@ fn main() {
     };
     ctx.run_prop("random-mul-div", || (arb_in_range(), arb_mul()), tier.pick(4_000_000, 80_000_000), |(a, m)| check_mul_div(*a as i128, *m));
     ctx.run_prop("random-sum-lists", || proptest::collection::vec(arb_in_range(), 0..8), tier.pick(1_000_000, 20_000_000), |v| check_sum_list(v));
+    // long sums whose exact total leaves the machine type
+    let arb_big = || prop_oneof![3 => Just(MAX_BALANCE), 2 => (MAX_BALANCE - 1000)..=MAX_BALANCE, 1 => (MAX_BALANCE / 2)..=MAX_BALANCE, 1 => Just(-MAX_BALANCE), 1 => 0i64..1000];
+    ctx.run_prop(
+        "long-sums",
+        || (proptest::collection::vec(arb_big(), 1..4), prop_oneof![Just(4393u16), Just(8785), Just(8786), 4000u16..20000], proptest::collection::vec(arb_in_range(), 0..4)),
+        tier.pick(1_500, 60_000),
+        |(head, reps, tail)| check_long_sum(head, *reps, tail),
+    );
+    ctx.require_label_fraction("long-sums", "total>u64::MAX", 0.15);
     ctx.finish();
 }
